@@ -135,6 +135,13 @@ theorem former_truncated_burn_witness : lossLess 3 ⟨700000000000000000⟩ 0 0 
 
 /-- **C10(4a)** every accepted operation keeps Σ balances ≤ supply for every denomination, so
 every burn below lowers the supply by exactly the burned amount -/
+theorem sound_hook {s s' : State} {src : String} {c : Nat} {rcv : String} {amount : Int} (h : Sound s.bank)
+    (hs : stepHookSwap s src c rcv amount = .ok s') : Sound s'.bank := by
+  obtain ⟨_, _, h3⟩ := hook_ok hs
+  rcases h3 with ⟨rfl, _⟩ | ⟨sym, t, _, _, _, _, rfl⟩
+  · exact h
+  · exact sound_mint h _ _ _
+
 theorem sound_step (s s' : State) (op : Op) (h : Sound s.bank) (hs : step s op = .ok s') : Sound s'.bank := by
   cases op with
   | issue owner symbol name minUnit scale init max mintable =>
@@ -173,6 +180,8 @@ theorem sound_step (s s' : State) (op : Op) (h : Sound s.bank) (hs : step s op =
     · exact sound_mint h _ _ _
   | evmFault mode => rw [evmFault_ok hs]; exact h
   | updateParams authority p => rw [(updateParams_ok hs).2]; exact h
+  | evmTx target logs =>
+    exact logs_lift (P := fun x => Sound x.bank) (fun _ _ _ _ _ _ hx hx' => sound_hook hx hx') h (evmTx_ok hs)
 
 theorem sound_run (s : State) (ops : List Op) (h : Sound s.bank) : Sound (run s ops).bank := by
   induction ops generalizing s with
@@ -364,10 +373,49 @@ def isConversion : Op → Bool
   | .swapFromErc20 .. => true
   | .hookSwap .. => true
   | .evmFault .. => true
+  | .evmTx .. => true
   | _ => false
 
 /-- native supply of `m` plus ERC20 supply of contract `c` -/
 def combined (s : State) (m : String) (c : Nat) : Nat := supplyOf s m + evmTotal s c
+
+/-- one accepted `SwapToNative` log: the combined supply of every bound token is unchanged — the
+token credited is the one bound to the **emitting** contract -/
+theorem hook_conserves (s s' : State) (src : String) (c : Nat) (rcv : String) (amount : Int) (hwf : WF s)
+    (hb : Bound s) (hs : stepHookSwap s src c rcv amount = .ok s') :
+    ∀ sym t, AMap.get? s.tokens sym = some t → t.contract ≠ 0 →
+      combined s' t.minUnit t.contract = combined s t.minUnit t.contract := by
+  have hs0 : step s (.hookSwap src c rcv amount) = .ok s' := hs
+  obtain ⟨_, _, h3⟩ := hook_ok hs
+  rcases h3 with ⟨rfl, hnone⟩ | ⟨sym0, t0, hc0, ht0, _, _, rfl⟩
+  · intro sym t ht hc
+    have hcc : c ≠ t.contract := by
+      intro e
+      rw [e, hb.1 sym t ht hc] at hnone
+      simp [ht] at hnone
+    unfold combined
+    have := evmTotal_set_other s c src (evmBal s c src - amount.toNat) s.bank t.contract hcc
+    simp only [supplyOf] at this ⊢
+    exact congrArg (s.bank.supplyOf t.minUnit + ·) this
+  · obtain ⟨_, _, _, _, _, e4, _, _, _⟩ := hook_swap_exact s _ src c rcv amount sym0 t0 hc0 ht0 hs0
+    obtain ⟨t0', ht0', hc0'⟩ := hb.2 c sym0 hc0
+    rw [ht0] at ht0'; cases ht0'
+    intro sym t ht hc
+    unfold combined
+    by_cases hk : sym0 = sym
+    · subst hk; rw [ht0] at ht; cases ht
+      rw [hc0']; exact e4
+    · have hm : t0.minUnit ≠ t.minUnit := by
+        intro e
+        exact hk (Props.C09.minUnit_identifies_one_token hwf ht0 ht e).1
+      have hcc : c ≠ t.contract := by
+        intro e
+        have b' := hb.1 sym t ht hc
+        rw [← e, hc0] at b'; cases b'; exact hk rfl
+      have h1 := evmTotal_set_other s c src (evmBal s c src - amount.toNat)
+        (s.bank.mint rcv t0.minUnit amount.toNat) t.contract hcc
+      simp only [supplyOf]
+      rw [h1, supplyOf_mint_other _ _ _ _ _ hm]
 
 /-- one accepted conversion: tables unchanged, and the combined supply of every bound token unchanged -/
 theorem conversion_step (s s' : State) (op : Op) (hwf : WF s) (hb : Bound s) (hsound : Sound s.bank)
@@ -419,38 +467,28 @@ theorem conversion_step (s s' : State) (op : Op) (hwf : WF s) (hb : Bound s) (hs
         rw [e, b'] at a; cases a; exact hk rfl
       rw [e6 _ hm, e8 _ hcc]
   | hookSwap src c rcv amount =>
-    obtain ⟨_, _, h3⟩ := hook_ok hs
-    rcases h3 with ⟨rfl, hnone⟩ | ⟨sym0, t0, hc0, ht0, _, _, rfl⟩
-    · refine ⟨rfl, rfl, rfl, ?_⟩
-      intro sym t ht hc
-      have hcc : c ≠ t.contract := by
-        intro e
-        rw [e, hb.1 sym t ht hc] at hnone
-        simp [ht] at hnone
-      unfold combined
-      have := evmTotal_set_other s c src (evmBal s c src - amount.toNat) s.bank t.contract hcc
-      simp only [supplyOf] at this ⊢
-      exact congrArg (s.bank.supplyOf t.minUnit + ·) this
-    · refine ⟨rfl, rfl, rfl, ?_⟩
-      obtain ⟨_, _, _, _, _, e4, _, _, _⟩ := hook_swap_exact s _ src c rcv amount sym0 t0 hc0 ht0 hs
-      obtain ⟨t0', ht0', hc0'⟩ := hb.2 c sym0 hc0
-      rw [ht0] at ht0'; cases ht0'
-      intro sym t ht hc
-      unfold combined
-      by_cases hk : sym0 = sym
-      · subst hk; rw [ht0] at ht; cases ht
-        rw [hc0']; exact e4
-      · have hm : t0.minUnit ≠ t.minUnit := by
-          intro e
-          exact hk (Props.C09.minUnit_identifies_one_token hwf ht0 ht e).1
-        have hcc : c ≠ t.contract := by
-          intro e
-          have b' := hb.1 sym t ht hc
-          rw [← e, hc0] at b'; cases b'; exact hk rfl
-        have h1 := evmTotal_set_other s c src (evmBal s c src - amount.toNat)
-          (s.bank.mint rcv t0.minUnit amount.toNat) t.contract hcc
-        simp only [supplyOf]
-        rw [h1, supplyOf_mint_other _ _ _ _ _ hm]
+    have f := hook_frame (show stepHookSwap s src c rcv amount = .ok s' from hs)
+    exact ⟨f.tokens, f.minUnits, f.contracts, hook_conserves s s' src c rcv amount hwf hb hs⟩
+  | evmTx target logs =>
+    have hl := evmTx_ok hs
+    have f := logs_frame hl
+    refine ⟨f.tokens, f.minUnits, f.contracts, ?_⟩
+    have key := logs_lift
+      (P := fun x => Frame s x ∧ ∀ sym t, AMap.get? s.tokens sym = some t → t.contract ≠ 0 →
+        combined x t.minUnit t.contract = combined s t.minUnit t.contract)
+      (by
+        intro x x' src c rcv amount ⟨fx, hx⟩ hstep
+        have hwfx : WF x := Props.C09.wf_of_lookups hwf (fun _ => by rw [fx.tokens]) (fun _ => by rw [fx.minUnits])
+        have hbx : Bound x := by
+          constructor
+          · intro sym2 t2 ht2 hc2; rw [fx.tokens] at ht2; rw [fx.contracts]; exact hb.1 sym2 t2 ht2 hc2
+          · intro c2 sym2 hcs; rw [fx.contracts] at hcs; rw [fx.tokens]; exact hb.2 c2 sym2 hcs
+        refine ⟨fx.trans (hook_frame hstep), ?_⟩
+        intro sym t ht hc
+        rw [hook_conserves x x' src c rcv amount hwfx hbx hstep sym t (by rw [fx.tokens]; exact ht) hc]
+        exact hx sym t ht hc)
+      ⟨Frame.refl s, fun _ _ _ _ => rfl⟩ hl
+    exact key.2
   | evmFault mode =>
     rw [evmFault_ok hs]
     exact ⟨rfl, rfl, rfl, fun _ _ _ _ => rfl⟩
@@ -696,6 +734,9 @@ theorem boundinv_step (s s' : State) (op : Op) (h : BoundInv s) (hs : step s op 
     have e := (updateParams_ok hs).2
     subst e
     exact boundinv_of_same h hwf' rfl rfl rfl
+  | evmTx target logs =>
+    have f := logs_frame (evmTx_ok hs)
+    exact boundinv_of_same h hwf' f.tokens f.contracts f.nonce
 
 theorem boundinv_genesis (bank : Bank) (p : Params) (env : Env) : BoundInv (genesis bank p env) where
   wf := Props.C09.wf_genesis bank p env
